@@ -213,9 +213,13 @@ type outcome struct {
 	// the rejection oracle applies to this case
 	RejectExpected bool
 	// the violations were caused by the preceding claim alone (attributed to caseT.Pre*)
-	AttrPre    bool
-	GossipSent int // messages the gossip routines sent to the peer
-	GossipRuns int
+	AttrPre bool
+	// explicit-state searches: canonical key of the state reached ("" = none / terminal)
+	StateKey string
+	// fetcher search: a removed peer is still listed as an origin (observation)
+	StaleOrigin bool
+	GossipSent  int // messages the gossip routines sent to the peer
+	GossipRuns  int
 }
 
 func (o *outcome) viol(oracle, f string, a ...interface{}) {
